@@ -128,14 +128,7 @@ func (m heapManager) push(b *Bar, sync bool) {
 	data := pushData{b, sync}
 	req := heapRequest{cmd: h_push, data: data}
 	vhook("hm.push", b, len(m), cap(m))
-	select {
-	case m <- req:
-	default:
-		go func() {
-			vhook("hm.push.detached", b, 0, 0)
-			m <- req
-		}()
-	}
+	m <- req
 }
 
 func (m heapManager) iter(drop <-chan struct{}, iter, iterPop chan<- *Bar) {
